@@ -50,12 +50,18 @@
 //     the same KnownAs attribute.
 //   - package names: the level that applies is the one configured under the byte-identical registry name; whether a
 //     differently-cased key should also apply is not demanded (no such configuration is generated).
+//   - one Maven artifact declared under two origins is generated as <dependencies> + <dependencyManagement> only. When the
+//     second declaration sits in a profile (active or not, dependencies or dependencyManagement) the manifest reader
+//     merges active profiles and drops the profile origin, and an inactive profile never takes part in resolution, so
+//     "the version it would resolve to without that change" cannot be attributed to a declaration: not demanded
+//     (VERIF_C11_ORIGIN=... runs them for inspection only; such a run is capped, never a deciding run).
 //   - IgnoreDev of Update is not exercised.
 //
 // Cause keys: <strategy>:updates-none-package, :downgrade, :no-upward-move, :exceeds-level,
 // :none-requirement-changed, :hang, :panic:<site>; pom:shared-property-collateral-change;
 // Maven Update additionally maven-update:downgrade-when-current-missing, maven-update:nil-newreq,
-// maven-update:nil-current; npm-relax:prerelease-step-relaxed-to-caret.
+// maven-update:nil-current; npm-relax:prerelease-step-relaxed-to-caret; maven-update:equal-version-respelled;
+// maven:artifact-declared-under-two-origins.
 package main
 
 import (
@@ -738,6 +744,28 @@ func main() {
 	// simplest first across strategies: Update, then shape by shape override and relax
 	runAll(stUpdate, func(emit func(*u.Case)) { b.GenUpdate(emit) })
 	runAll(stUpdate, func(emit func(*u.Case)) { b.GenUpdateDup(emit) })
+	// equal-ordered Maven spellings (1.0 = 1.0.0 = 1.0.0.0 = 1.0-ga = 1.0.Final) in the registry and the manifest
+	runAll(stUpdate, func(emit func(*u.Case)) { b.GenCandidateShapes("equal-update", emit) })
+	runAll(stOverride, func(emit func(*u.Case)) { b.GenCandidateShapes("equal-override", emit) })
+	// one artifact declared twice: <dependencies> + <dependencyManagement>. The profile-based second declarations
+	// (VERIF_C11_ORIGIN=profile|profile-management|profile-inactive|all) are a don't-care cell, see the header.
+	only := os.Getenv("VERIF_C11_ORIGIN")
+	if only == "" {
+		only = u.OriginManagement
+	} else {
+		r.Cap("VERIF_C11_ORIGIN=%s: unsettled profile-based double declarations included, not a deciding run", only)
+	}
+	keep := func(emit func(*u.Case)) func(*u.Case) {
+		return func(c *u.Case) {
+			if only == "all" || (len(c.Manifest) > 1 && c.Manifest[1].Origin == only) {
+				emit(c)
+			}
+		}
+	}
+	runAll(stUpdate, func(emit func(*u.Case)) { b.GenCandidateShapes("origins-update", keep(emit)) })
+	for _, sh := range u.OriginShapes {
+		runAll(stOverride, func(emit func(*u.Case)) { b.GenOriginShape(sh, keep(emit)) })
+	}
 	for i, sh := range u.FixShapes {
 		runAll(stOverride, func(emit func(*u.Case)) { b.GenFixShape(u.Maven, sh, emit) })
 		runAll(stRelax, func(emit func(*u.Case)) { b.GenFixShape(u.NPM, sh, emit) })
@@ -758,30 +786,6 @@ func main() {
 		}
 	}
 
-	if os.Getenv("VERIF_C11_CANDIDATES") == "1" {
-		// shapes under triage by the lead; not part of the default run
-		runAll(stUpdate, func(emit func(*u.Case)) { b.GenCandidateShapes("equal-update", emit) })
-		runAll(stOverride, func(emit func(*u.Case)) { b.GenCandidateShapes("equal-override", emit) })
-		// second declaration's origin: dependencyManagement unless VERIF_C11_CANDIDATE_ORIGIN names another one or "all"
-		// (profile declarations lose their origin when the reader merges profiles; those results are not settled)
-		only := os.Getenv("VERIF_C11_CANDIDATE_ORIGIN")
-		if only == "" {
-			only = u.OriginManagement
-		}
-		keep := func(emit func(*u.Case)) func(*u.Case) {
-			return func(c *u.Case) {
-				if only == "all" || (len(c.Manifest) > 1 && c.Manifest[1].Origin == only) {
-					emit(c)
-				}
-			}
-		}
-		runAll(stUpdate, func(emit func(*u.Case)) { b.GenCandidateShapes("origins-update", keep(emit)) })
-		for _, sh := range u.OriginShapes {
-			runAll(stOverride, func(emit func(*u.Case)) { b.GenOriginShape(sh, keep(emit)) })
-		}
-		r.Assume("VERIF_C11_CANDIDATES=1: candidate shapes (equal-ordered Maven spellings, one artifact under two origins) included")
-	}
-
 	dc := map[string]int64{}
 	for k, a := range dcTotals {
 		if n := a.Load(); n > 0 {
@@ -795,7 +799,7 @@ func main() {
 	r.Assume("the in-memory deps.dev LocalClient and the npm/Maven resolvers of deps.dev/util/resolve are the resolution semantics (the same ones the repository's own tests use)")
 	r.Assume("vulnerability matching uses the repository's IsAffected (decided separately by C18)")
 	rule := "For every tuple (universe, manifest, vulnerability set, upgrade config) of the bounded product below, for npm/relax and Maven/override (all candidate patches of ComputePatches and the patches FixVulns applies) and Maven/Update: every PackageUpdate u of a patch P has level(u.Name) != none; with v0 = version u.Name resolves to in manifest+(P-u) and v1 = in manifest+P (real writer, reader and resolver), v1 > v0 in the reference order and the most significant differing component of v0->v1 is allowed by the level (major: any, minor: minor/patch, patch: patch); direct requirements of `none` packages are textually unchanged in the written manifest and every direct requirement that is not a reported update still resolves, from the files on disk, to the same version or moved upward within its level; no tuple panics or runs longer than 120 s. " +
-		"Bound (" + r.Tier + "): " + b.Describe() + "; shapes " + strings.Join(u.FixShapes, ", ") + " (FixVulns; sharedprop Maven only) plus alias-solo, alias-plain, alias-chain (GenAliasShape, npm: a direct dependency declared as \"<alias>\": \"npm:<real>@<req>\", alone / next to a plain requirement of the same package / constraining a vulnerable transitive package; levels keyed by the real name, alias-keyed entries as controls) parent-req, parent-rev, parent-prop (GenParentShape, Maven: local parent pom parent.xml defining a property shared by the vulnerable d1 and another package d2, requirements split between parent and child) and name-solo, name-chain, name-update (GenNameShape: registry names from " + fmt.Sprint(u.NameAlphabet) + " instead of d1/t1, upgrade config built by Config.Set and by NewConfigFromStrings, keyed by the exact name) and prerelease (GenPreShape: solo over the ladder " + strings.Join(u.LadderPre, " ") + " with interleaved pre-releases) and update-solo, update-pair, update-dup (Update; update-dup = one package required twice, jar a1 and tests/test-jar a2, a1,a2 over the ladder) as defined in verif/universe/gen.go, each the full product of its lists, enumerated simplest first."
+		"Bound (" + r.Tier + "): " + b.Describe() + "; shapes " + strings.Join(u.FixShapes, ", ") + " (FixVulns; sharedprop Maven only) plus alias-solo, alias-plain, alias-chain (GenAliasShape, npm: a direct dependency declared as \"<alias>\": \"npm:<real>@<req>\", alone / next to a plain requirement of the same package / constraining a vulnerable transitive package; levels keyed by the real name, alias-keyed entries as controls) parent-req, parent-rev, parent-prop (GenParentShape, Maven: local parent pom parent.xml defining a property shared by the vulnerable d1 and another package d2, requirements split between parent and child) and name-solo, name-chain, name-update (GenNameShape: registry names from " + fmt.Sprint(u.NameAlphabet) + " instead of d1/t1, upgrade config built by Config.Set and by NewConfigFromStrings, keyed by the exact name) and prerelease (GenPreShape: solo over the ladder " + strings.Join(u.LadderPre, " ") + " with interleaved pre-releases) and equal-update, equal-override (Maven registry/manifest versions from the equal-ordered spellings " + strings.Join(u.EqualSpellings, " ") + "), origins-update and origin-direct, origin-transitive (one artifact declared in <dependencies> and in <dependencyManagement>, versions v,w over its published versions) and update-solo, update-pair, update-dup (Update; update-dup = one package required twice, jar a1 and tests/test-jar a2, a1,a2 over the ladder) as defined in verif/universe/gen.go, each the full product of its lists, enumerated simplest first."
 	os.RemoveAll(scratchRoot)
 	r.Finish(rule, exhaustive)
 }
